@@ -78,6 +78,7 @@ PLANS = {
     # label, h, args
     "C01": {
         "quick": [
+            ("h22-tall", 22, ["-hf", "2", "-seam", "-modes", "tall"]),       # longest first (run in parallel)
             ("h4-real", 4, ["-hf", "0,1,2", "-modes", "walk,jumps", "-jumpmode", "all"]),
             ("h6-real", 6, ["-hf", "0,1,2", "-modes", "walk"]),
             ("h6-real-jumps", 6, ["-hf", "0", "-modes", "jumps", "-jumpmode", "classes", "-stride", "3"]),
@@ -100,6 +101,7 @@ PLANS = {
             ("h16-tall", 16, ["-hf", "0", "-seam", "-modes", "tall"]),
             ("h18-tall", 18, ["-hf", "1", "-seam", "-modes", "tall"]),
             ("h20-tall", 20, ["-hf", "2", "-seam", "-modes", "tall"]),
+            ("h22-tall", 22, ["-hf", "0", "-seam", "-modes", "tall"]),
         ],
     },
     "C02": {
